@@ -119,10 +119,16 @@ func validDur(r *rand.Rand) (int64, int32) {
 		s = []int64{1, -1, maxDur, -maxDur, maxDur - 1, -maxDur + 1, 9223372036, -9223372036, 9223372037, 292 * 365 * 86400}[r.Intn(10)]
 	case 2:
 		s = r.Int63n(2*maxDur+1) - maxDur
+	case 3:
+		// long but still expressible as a time.Duration (|d| < ~292 years)
+		s = 1<<24 + r.Int63n(9200000000-(1<<24))
+		if r.Intn(2) == 0 {
+			s = -s
+		}
 	default:
 		s = r.Int63n(2000001) - 1000000
 	}
-	nn := []int32{0, 1, 999999999, 500000000, 999999998, 2}[r.Intn(6)]
+	nn := []int32{0, 1, 999999999, 500000000, 999999998, 2, 999999997, 999999000}[r.Intn(8)]
 	if r.Intn(3) == 0 {
 		nn = int32(r.Intn(1000000000))
 	}
